@@ -84,7 +84,9 @@ Behaviour(c) ==
                 [op |-> "create", h |-> 3, wb |-> Doc(c, "repeat")],
                 \* inherited values and interpolation between neighbours
                 [op |-> "qtable", h |-> 1, dim |-> 3, props |-> <<PT, PC(1), PTag>>,
-                 checks |-> <<[k |-> "between", at |-> 0, col |-> 4, col2 |-> 5], [k |-> "between", at |-> 1, col |-> 6, col2 |-> 7]>>,
+                 checks |-> <<[k |-> "between", at |-> 0, col |-> 4, col2 |-> 5], [k |-> "between", at |-> 1, col |-> 6, col2 |-> 7],
+                              \* ... with one weight for all quantities of a point (the section fraction)
+                              [k |-> "sameweight", at |-> 0, col |-> 4, col2 |-> 5, at2 |-> 1, col3 |-> 6, col4 |-> 7]>>,
                  rows |-> [i \in 1..9 |-> Row(i - 1) \o EndsT(c, i - 1) \o EndsC(c, i - 1)]],
                 \* at a coordinate the section's own value is returned
                 [op |-> "qtable", h |-> 1, dim |-> 3, props |-> <<PT, PC(1)>>,
